@@ -40,6 +40,7 @@ impl C03 {
     pub fn judge(d: &[u8], truth: Option<&[u8]>, label: &str, ctx: &mut Ctx, corrupt: bool) -> bool {
         ctx.item_bytes(label, d);
         ctx.count("evaluations");
+        ctx.phase("nonverdict: analysis (totality of the analysis is C05's verdict)");
         let lib = cur::analyze(d, false);
         let z = comp::zlib_inflate_raw(d, 64 << 20);
         ctx.count(&format!(
